@@ -30,7 +30,7 @@ func judgeBatch(cs *BatchCase, o *BatchObs) []scen.Finding {
 		add("C06", "panic", "batch run panicked: %s", o.Panic)
 		return fs
 	}
-	if o.Incon != "" {
+	if o.Incon != "" || o.Discard {
 		return fs
 	}
 	cancelled := cs.Cancel != nil
@@ -72,6 +72,7 @@ func judgeBatch(cs *BatchCase, o *BatchObs) []scen.Finding {
 	}
 	// ---------------------------------------------------------------- the run is over when Run returns
 	if o.ParkedAtReturn > 0 {
+		add("C08", "executions-outlive-the-run:"+cc, "Run returned while %d item executions of this batch (concurrency %d, %s mode) were still inside exec: they go on running next to whatever the caller starts next, so the bound of %d executions per batch node no longer holds", o.ParkedAtReturn, cs.C, mode, cs.C)
 		add("C06", "returned-before-settled:"+cc, "Run returned while %d item executions were still inside exec (n=%d c=%d %s): not every item was settled", o.ParkedAtReturn, n, cs.C, mode)
 	}
 	if o.CallbacksAfterReturn > 0 && !o.ErrNil {
@@ -344,7 +345,7 @@ func judgeBatch(cs *BatchCase, o *BatchObs) []scen.Finding {
 		}
 	}
 	// ---------------------------------------------------------------- C09 (a)(b)(c): stop mode
-	if cs.Stop && !cancelled && !cs.Lean {
+	if cs.Stop && !cancelled && !cs.Lean && !(cs.ErrResult && cs.ExecStyle == "result") { // (an error RESULT handed back with a nil error is not a failed item)
 		// time of the first final failure: return of the failing item's last attempt (or its failing fallback)
 		sf, gf, itf := -1, 0, -1
 		for _, e := range o.Events {
